@@ -288,31 +288,32 @@ def coq_table(pool, tbl):
 # --------------------------------------------------------------------------------------------
 # Coq case files
 
-PREAMBLE = """From Coq Require Import List Bool String Ascii Arith.
+PREAMBLE = """From Coq Require Import List String Ascii NArith.
 From PV Require Import Booleq.Model.
 Import ListNotations.
-Definition bytes_name (l : list nat) : name := fold_right (fun c s => String (ascii_of_nat c) s) EmptyString l.
+Local Open Scope N_scope.
+Definition bytes_name (l : list N) : name := fold_right (fun c s => String (ascii_of_N c) s) EmptyString l.
 Definition chk_op (k : kind) (args : list term) (e : term) : bool := res_same (Some (OpC k args)) (Some e).
 Definition chk_eq (l r : name) (e : term) : bool := res_same (Some (EqC l r)) (Some e).
-Fixpoint failing (i : nat) (l : list bool) : list nat :=
-  match l with [] => [] | b :: r => if b then failing (S i) r else i :: failing (S i) r end.
-Fixpoint chk_dense (i : nat) (t : term) (results : list (option term)) (tbls : list table) (which : list nat)
-  : list nat :=
-  match tbls, which with
-  | tb :: tbls', w :: which' =>
-      let rest := chk_dense (S i) t results tbls' which' in
-      match nth_error results w with
-      | Some e => if res_same (simplify tb t) e then rest else i :: rest
+Fixpoint failing (i : N) (l : list bool) : list N :=
+  match l with [] => [] | b :: r => if b then failing (N.succ i) r else i :: failing (N.succ i) r end.
+(* dense: [results] pairs every distinct real result with the bit mask of the tables (by position) that gave it *)
+Fixpoint chk_dense (i : N) (t : term) (results : list (option term * N)) (tbls : list table) : list N :=
+  match tbls with
+  | tb :: tbls' =>
+      let rest := chk_dense (N.succ i) t results tbls' in
+      match find (fun p => N.testbit (snd p) i) results with
+      | Some p => if res_same (simplify tb t) (fst p) then rest else i :: rest
       | None => i :: rest
       end
-  | [], [] => []
-  | _, _ => [i]
+  | [] => []
   end.
-Definition chk_at (t : term) (tbls : list table) (cases : list (nat * option term)) : list nat :=
-  flat_map (fun c => match nth_error tbls (fst c) with
+Definition chk_at (t : term) (tbls : list table) (cases : list (N * option term)) : list N :=
+  flat_map (fun c => match nth_error tbls (N.to_nat (fst c)) with
                      | Some tb => if res_same (simplify tb t) (snd c) then [] else [fst c]
                      | None => [fst c] end) cases.
-Definition keep_bad {A} (l : list (A * list nat)) := filter (fun p => negb (Nat.eqb (List.length (snd p)) 0)) l.
+Definition keep_bad {A} (l : list (A * list N)) :=
+  filter (fun p => match snd p with [] => false | _ => true end) l.
 """
 
 
@@ -343,7 +344,7 @@ class CoqBatch:
     self.extra_tbl.append(tbl)
     return len(self.tables) + len(self.extra_tbl) - 1
 
-  def files(self, ctor_per_file=450, dense_per_file=16, sparse_pairs_per_file=6000):
+  def files(self, ctor_per_file=900, dense_per_file=80, sparse_pairs_per_file=15000):
     p = self.pool
     out = []
     meta = {}
@@ -364,11 +365,15 @@ class CoqBatch:
       body = [p.coq_defs(used), tbl_def]
       rows = []
       for j, (label, ti, results, which) in enumerate(chunk):
-        rows.append("(%d, chk_dense 0 t%d [%s] (firstn %d tables) [%s])" % (
-            j, ti, "; ".join(opt_ref(i) for i in results), len(self.tables), ";".join(map(str, which))))
-      # canary: the first term against a wrong constant expectation for every table
-      rows.append("(%d, chk_dense 0 (TEq n0 n3) [Some (TEq n1 n3)] (firstn 2 tables) [0;0])" % len(chunk))
-      body.append("Definition rows : list (nat * list nat) := [\n  %s\n]." % ";\n  ".join(rows))
+        masks = [0] * len(results)
+        for k, w in enumerate(which):
+          masks[w] |= 1 << k
+        rows.append("(%d, chk_dense 0 t%d [%s] std_tables)" % (
+            j, ti, "; ".join("(%s, %d)" % (opt_ref(i), m) for i, m in zip(results, masks))))
+      # canary: a wrong expectation for the first two tables (and none for the others)
+      rows.append("(%d, chk_dense 0 (TEq n0 n3) [(Some (TEq n1 n3), 3)] (firstn 2 tables))" % len(chunk))
+      body.append("Definition std_tables := firstn %d tables." % len(self.tables))
+      body.append("Definition rows : list (N * list N) := [\n  %s\n]." % ";\n  ".join(rows))
       body.append("Eval vm_compute in (keep_bad rows).")
       name = "c17_dense_%d" % n
       out.append((name, body))
@@ -388,7 +393,7 @@ class CoqBatch:
         rows.append("(%d, chk_at t%d tables [%s])" % (
             j, ti, "; ".join("(%d, %s)" % (k, opt_ref(i)) for k, i in pairs)))
       rows.append("(%d, chk_at (TEq n0 n3) tables [(0, Some (TEq n1 n3))])" % len(chunk))
-      body.append("Definition rows : list (nat * list nat) := [\n  %s\n]." % ";\n  ".join(rows))
+      body.append("Definition rows : list (N * list N) := [\n  %s\n]." % ";\n  ".join(rows))
       body.append("Eval vm_compute in (keep_bad rows).")
       name = "c17_sparse_%d" % n
       out.append((name, body))
